@@ -12,7 +12,15 @@ package main
 //   sized   the sample value of a char[n] member is built from the declared n (a sample of another
 //           size does not survive the padded round trip)
 
-import "strings"
+import (
+	"fmt"
+	"go/parser"
+	"go/token"
+	"os"
+	"os/exec"
+	"path/filepath"
+	"strings"
+)
 
 func testCellObligations(base string, r emitRun) []emitObl {
 	props := []string{"C17"}
@@ -42,6 +50,78 @@ func testCellObligations(base string, r emitRun) []emitObl {
 	out = append(out, emitObl{Name: base + ":marker", Props: props, OK: markerOK, Detail: "placeholder / unsupported marker in the emitted test: " + hit})
 	if r.cell.Kind == "fixed" {
 		out = append(out, emitObl{Name: base + ":sized", Props: props, OK: sizedOK, Detail: "the sample value of a char[n] member is built from the declared length"})
+	}
+	return out
+}
+
+
+// ---------------------------------------------------------------- bounded: syntax of emitted test files
+
+// testPrograms: enumerated program shapes for the emitted unit tests (Go and Python test files of the
+// real generators are parsed with go/parser and python3's ast).
+func testPrograms() []luaProgram {
+	ps := []luaProgram{
+		{"scalars-and-strings", "root packet R { u8 a, i16 b, u32 c, i64 d, f32 e, f64 f, string s, char[4] t, }\n"},
+		{"repeats", "packet Item { u8 b, string s, }\nroot packet R { repeat Item items, repeat string names, repeat u16 nums, repeat char[3] codes, u64 tail, }\n"},
+		{"nested-objects", "packet C { u8 c, }\npacket B { C c, }\npacket A { B b, }\nroot packet R { A a, u8 t, }\n"},
+		{"inline-two-levels", "root packet R { u8 h, outer { u16 x, inner { u32 y, char[4] z, }, }, u8 t, }\n"},
+		{"match-with-trailer", "root packet R { u16 kind, u32 len @lengthOf(body), match kind as body { 1 : A, 2 : B, }, u32 sum @calculatedFrom(\"crc\"), }\npacket A { u8 a, }\npacket B { repeat u16 b, string s, }\n"},
+		{"match-in-nested", "packet A { u8 a, }\npacket B { string s, }\npacket Body { u16 kind, match kind as payload { 1 : A, 2 : B, }, }\nroot packet R { Body b, u32 checksum, }\n"},
+		{"options", "options { LittleEndian = true; ArrayPrefixLenType = u32; StringPrefixLenType = u8; GoPackage = \"pkt\"; GoModule = \"example.com/pkt\"; }\npacket Item { u8 b, }\nroot packet R { repeat Item items, string s, }\n"},
+	}
+	return ps
+}
+
+// testFileObligations: bounded, never counted as proved.
+func testFileObligations() []emitObl {
+	props := []string{"C17"}
+	var reqs []cellReq
+	for _, p := range testPrograms() {
+		reqs = append(reqs, cellReq{ID: "go/" + p.Name, Lang: "go", Dir: "testfiles", DSL: p.DSL}, cellReq{ID: "python/" + p.Name, Lang: "python", Dir: "testfiles", DSL: p.DSL})
+	}
+	res, err := runCells(reqs)
+	if err != nil {
+		return []emitObl{{Name: "BOUNDED:C17:testfiles:harness", Props: props, OK: false, Detail: err.Error()}}
+	}
+	tmp, _ := os.MkdirTemp("", "goverif-py")
+	defer os.RemoveAll(tmp)
+	var out []emitObl
+	for _, p := range testPrograms() {
+		for _, lang := range []string{"go", "python"} {
+			name := "BOUNDED:C17:testfiles:" + lang + ":" + p.Name + ":syntax"
+			r := res[lang+"/"+p.Name]
+			if r.Err != "" || r.Text == "" {
+				out = append(out, emitObl{Name: name, Props: props, OK: false, Detail: "the real generator could not be run, or emitted no test file: " + r.Err + "\n" + p.DSL})
+				continue
+			}
+			var problems []string
+			nfiles := 0
+			for _, part := range strings.Split(r.Text, "\x00FILE ")[1:] {
+				k := strings.Index(part, "\n")
+				fname, src := part[:k], part[k+1:]
+				nfiles++
+				if lang == "go" {
+					if _, err := parser.ParseFile(token.NewFileSet(), fname, src, 0); err != nil {
+						problems = append(problems, fname+": "+err.Error())
+					}
+				} else {
+					f := filepath.Join(tmp, "t.py")
+					os.WriteFile(f, []byte(src), 0644)
+					c := exec.Command("python3", "-c", "import ast,sys; ast.parse(open(sys.argv[1]).read())", f)
+					if o, err := c.CombinedOutput(); err != nil {
+						ls := strings.Split(strings.TrimSpace(string(o)), "\n")
+						problems = append(problems, fname+": "+ls[len(ls)-1])
+					}
+				}
+			}
+			o := emitObl{Name: name, Props: props, OK: len(problems) == 0, Detail: fmt.Sprintf("%d emitted %s test file(s) parse", nfiles, lang)}
+			if len(problems) > 0 {
+				o.Detail = "emitted test file is not a syntactically valid program: " + truncate(strings.Join(problems, " | "), 600) + "\ninput:\n" + p.DSL
+				o.Replay = map[string]interface{}{"reproduced": true, "input": p.DSL, "entry": lang + " generator Generate on the model ParseFile builds (real code, go test -overlay); test files parsed with go/parser / python3 ast",
+					"observed": strings.Join(problems, " | "), "emitted": truncate(r.Text, 6000)}
+			}
+			out = append(out, o)
+		}
 	}
 	return out
 }
